@@ -1,6 +1,7 @@
 import WK.Model.C07
 import WK.Spec.C07
 import WK.Proofs.C07_Inv8
+import WK.Proofs.C07_Ref5
 /-
   C07 — theorems about the executable store model (`WK.C07.step`, the function the
   driver runs against the real store).
@@ -428,5 +429,99 @@ theorem c07_truncate_below_retained_counterexample :
   have := h.2 (by decide +kernel)
   revert this
   decide +kernel
+
+/-! ### refinement by the reference sequential log (phase 4; covered constructors only) -/
+
+/-- the constructors whose refinement is proved: appends in all three modes, lease close, whole-DB
+    reopen, LEO / retention / checkpoint loads, forward and reverse reads, GetBySeq, GetLastVisibleMessage.
+    NOT covered (differential only): follower apply (`fetch`), `trunc`, `trim`, `ckpt`, `ckptm`, `byid`,
+    `bycmn`, `idem`, `lss`. -/
+def Covered : Op → Prop
+  | .app .. | .close _ | .reopen | .leo _ | .lret _ | .lckpt _ | .read .. | .rread .. | .get .. | .lastvis .. => True
+  | _ => False
+
+/-- **c07_refines_append**: `ChannelLog.Append` in strict, server-allocated-id and trusted mode (and an
+    invalid mode) refines the reference log's append — same accept/reject decision with the same error,
+    same assigned sequences, same resulting rows / log end / retention / checkpoint — in every reachable
+    store (`Inv`, per-row hash check `Chk`) under the caller contract `SafeBatch`. -/
+theorem c07_refines_append (st : Store) (c mode base : Nat) (recs : List Rec) (hi : Inv st) (hk : Chk st)
+    (hs : SafeBatch st c mode recs) : Refines st (.app c mode base recs) := refines_append st c mode base recs hi hk hs
+
+example : Refines Store.init (.app 0 0 0 [⟨5, [1], [2], [3], 4⟩]) :=
+  c07_refines_append _ _ _ _ _ inv_init (by intro c r hr; rw [init_chan] at hr; cases hr)
+    ⟨by decide, fun h => absurd rfl h, fun h => by cases h⟩
+
+theorem c07_refines_close (st : Store) (c : Nat) (hk : Chk st) : Refines st (.close c) := refines_close st c hk
+theorem c07_refines_reopen (st : Store) (hk : Chk st) : Refines st .reopen := refines_reopen st hk
+theorem c07_refines_leo (st : Store) (c : Nat) (hi : Inv st) (hk : Chk st) (hc : c < numChan) : Refines st (.leo c) := refines_leo st c hi hk hc
+theorem c07_refines_lret (st : Store) (c : Nat) (hk : Chk st) : Refines st (.lret c) := refines_lret st c hk
+theorem c07_refines_lckpt (st : Store) (c : Nat) (hk : Chk st) : Refines st (.lckpt c) := refines_lckpt st c hk
+theorem c07_refines_read (st : Store) (c f l b : Nat) (hk : Chk st) : Refines st (.read c f l b) := refines_read st c f l b hk
+theorem c07_refines_rread (st : Store) (c f l b : Nat) (hi : Inv st) (hk : Chk st) (hc : c < numChan) :
+    Refines st (.rread c f l b) := refines_rread st c f l b hi hk hc
+theorem c07_refines_get (st : Store) (c s : Nat) (hk : Chk st) : Refines st (.get c s) := refines_get st c s hk
+theorem c07_refines_lastvis (st : Store) (c a : Nat) (hi : Inv st) (hk : Chk st) : Refines st (.lastvis c a) := refines_lastvis st c a hi hk
+
+/-- **c07_refines_step_partial**: one step of a covered constructor — the abstraction of the model's next
+    store is the reference log's next state, the outputs are equal, and the hash invariant is kept.
+    Missing for the unconditional `c07_refines_step`: the constructors listed at `Covered`. -/
+theorem c07_refines_step_partial (st : Store) (op : Op) (hi : Inv st) (hk : Chk st) (hs : Safe st op) (hc : Covered op) :
+    Refines st op := by
+  cases op with
+  | app c mode base recs => exact refines_append st c mode base recs hi hk hs
+  | close c => exact refines_close st c hk
+  | reopen => exact refines_reopen st hk
+  | leo c => exact refines_leo st c hi hk hs
+  | lret c => exact refines_lret st c hk
+  | lckpt c => exact refines_lckpt st c hk
+  | read c f l b => exact refines_read st c f l b hk
+  | rread c f l b => exact refines_rread st c f l b hi hk hs
+  | get c s => exact refines_get st c s hk
+  | lastvis c a => exact refines_lastvis st c a hi hk
+  | fetch _ _ _ _ => exact absurd hc (by simp [Covered])
+  | trunc _ _ => exact absurd hc (by simp [Covered])
+  | trim _ _ _ _ => exact absurd hc (by simp [Covered])
+  | ckpt _ _ => exact absurd hc (by simp [Covered])
+  | ckptm _ _ _ _ => exact absurd hc (by simp [Covered])
+  | byid _ _ => exact absurd hc (by simp [Covered])
+  | bycmn _ _ _ _ => exact absurd hc (by simp [Covered])
+  | idem _ _ _ => exact absurd hc (by simp [Covered])
+  | lss _ _ _ => exact absurd hc (by simp [Covered])
+
+/-- the reference log run over an operation list -/
+def specRun (s : SStore) (ops : List Op) : SStore := ops.foldl (fun s o => (specStep s o).1) s
+
+/-- **c07_refines_run_partial**: for every list of covered operations respecting the contracts, running the
+    model and abstracting equals running the reference log on the abstraction, and at every step the outputs agree. -/
+theorem c07_refines_run_partial (ops : List Op) (st : Store) (hi : Inv st) (hk : Chk st) (hs : SafeRun st ops)
+    (hc : ∀ op ∈ ops, Covered op) :
+    abs (run st ops) = specRun (abs st) ops ∧ Inv (run st ops) ∧ Chk (run st ops) ∧
+    ∀ (pre : List Op) (op : Op) (post : List Op), ops = pre ++ op :: post →
+      (step (run st pre) op).2 = (specStep (specRun (abs st) pre) op).2 := by
+  induction ops generalizing st with
+  | nil => exact ⟨rfl, hi, hk, fun pre op post h => by cases pre <;> cases h⟩
+  | cons o rest ih =>
+    have R := c07_refines_step_partial st o hi hk hs.1 (hc o List.mem_cons_self)
+    have I1 := inv_step st o hi hs.1
+    obtain ⟨a, b, c, d⟩ := ih (step st o).1 I1 R.2.2 hs.2 (fun op h => hc op (List.mem_cons_of_mem _ h))
+    refine ⟨?_, b, c, ?_⟩
+    · show abs (run (step st o).1 rest) = specRun (specStep (abs st) o).1 rest
+      rw [a, R.1]
+    · intro pre op post h
+      cases pre with
+      | nil =>
+        simp only [List.nil_append, List.cons.injEq] at h
+        obtain ⟨e, _⟩ := h
+        subst e
+        exact R.2.1
+      | cons p pre' =>
+        simp only [List.cons_append, List.cons.injEq] at h
+        obtain ⟨e, h'⟩ := h
+        subst e
+        have := d pre' op post h'
+        show (step (run (step st o).1 pre') op).2 = (specStep (specRun (specStep (abs st) o).1 pre') op).2
+        rw [← R.1]; exact this
+
+example : Covered (.app 0 0 0 []) ∧ Covered .reopen ∧ ¬ Covered (.trunc 0 1) := ⟨trivial, trivial, fun h => h⟩
 
 end WK.C07
